@@ -52,6 +52,13 @@ def main():
             return 1
         imp = sh(["/venv/bin/python", "-c", "import textx; print(textx.__file__)"], cwd=s + "/repo", env=env)
         meta["imports"] = imp.returncode == 0 and s in imp.stdout
+        old = os.path.join(HERE, "seeded", a.sid, "meta.json")
+        if a.skip_suite and os.path.exists(old):
+            # the suite result of the first (full) evaluation of this change stays on record
+            o = json.load(open(old))
+            for k in ("suite", "suite_ok"):
+                if o.get(k) is not None:
+                    meta[k] = o[k]
         if not a.skip_suite:
             b = sh(["/venv/bin/python", os.path.join(HERE, "tools", "baseline.py"), s + "/repo"], timeout=1800)
             meta["suite"] = b.stdout.strip().splitlines()[0] if b.stdout.strip() else b.stderr[-200:]
